@@ -1568,6 +1568,16 @@ func runReferrerCall(c *core.Ctx) {
 		}
 		// the subject comes from every parsed kind, under the same setting
 		kinds := map[string]map[string]bool{}
+		// what was parsed, in the handler itself and in the sub-handlers it hands the bytes to (one per manifest kind)
+		parsedAll := map[*ssa.Alloc]string{}
+		for al, k := range ph.parsed {
+			parsedAll[al] = k
+		}
+		for _, sb := range ph.subs {
+			for al, k := range sb.view.parsed {
+				parsedAll[al] = k
+			}
+		}
 		// (the value may be read through a pointer or a copy chosen per kind — manSubject = m.Subject in each arm, the
 		// subject taken from manSubject afterwards: the path below a φ is carried to its operands, and the settings that
 		// guard any step of the flow count)
@@ -1595,6 +1605,13 @@ func runReferrerCall(c *core.Ctx) {
 			if _, isConst := v.(*ssa.Const); isConst {
 				return
 			}
+			// handed back by a sub-handler: judged at its returns, with the settings that guard them
+			if hr := an.HelperReturns(v, func(h *ssa.Function) bool { return core.FuncPkgPath(h) == c.P.Module }); len(hr) > 0 && len(suffix) == 0 {
+				for _, x := range hr {
+					visit(x.Val, x.Ret.Block(), d+1, suffix, g)
+				}
+				return
+			}
 			root, p := accessPath(v)
 			full := append(append([]string{}, p...), suffix...)
 			if phi, ok := root.(*ssa.Phi); ok && len(full) > 0 {
@@ -1603,16 +1620,16 @@ func runReferrerCall(c *core.Ctx) {
 				}
 				return
 			}
-			if al, ok := root.(*ssa.Alloc); ok && ph.parsed[al] != "" && pathEq(full, "Subject", "Digest") {
+			if al, ok := root.(*ssa.Alloc); ok && parsedAll[al] != "" && pathEq(full, "Subject", "Digest") {
 				// the assigning block itself may be the guarded block's successor: include guards of `at`
-				if prev, seen := kinds[ph.parsed[al]]; seen {
+				if prev, seen := kinds[parsedAll[al]]; seen {
 					for k := range g {
 						if !prev[k] {
 							delete(g, k)
 						}
 					}
 				}
-				kinds[ph.parsed[al]] = g
+				kinds[parsedAll[al]] = g
 			}
 		}
 		if subj != nil {
@@ -1646,9 +1663,10 @@ func runReferrerCall(c *core.Ctx) {
 			}
 		}
 		parsedKinds := map[string]bool{}
-		for _, k := range ph.parsed {
+		for _, k := range parsedAll {
 			parsedKinds[k] = true
 		}
+		c.SetTags("setting")
 		for k := range parsedKinds {
 			g, ok := kinds[k]
 			switch {
@@ -1660,6 +1678,7 @@ func runReferrerCall(c *core.Ctx) {
 				c.Pass("subject-from:"+k+":"+name, hcall.Pos(), "subject extracted under API.Referrer.Enabled")
 			}
 		}
+		c.SetTags()
 	}
 	// the helpers themselves: a nil return means the response was re-inserted into the index, or there was
 	// no response to update (the not-found edge of the lookup)
